@@ -10,6 +10,7 @@ import (
 	"fmt"
 	"sort"
 	"strings"
+	"sync"
 
 	openfgav1 "github.com/openfga/api/proto/openfga/v1"
 	"github.com/openfga/language/pkg/go/graph"
@@ -26,6 +27,9 @@ type wgInput struct {
 	Orders [][]string `json:"orders,omitempty"`      // hook orders as reference node ids (non-terminal nodes)
 	Text   string     `json:"text,omitempty"`        // human readable form of the model
 	Prior  *gen.Model `json:"prior_model,omitempty"` // built first with the same builder value (the graph is a function of the model, not of the builder's history)
+	// Shared: additionally one builder value is used by four goroutines at once, two building the model and two
+	// the prior model; every graph they return for the model is checked like any other build
+	Shared bool `json:"shared_builder,omitempty"`
 }
 
 type wgFinding struct {
@@ -619,6 +623,33 @@ func wgEvaluate(in wgInput, o wgOpts) *wgResult {
 		_, _ = b.Build(in.Prior.Proto())
 		wg, err := b.Build(pm)
 		checkBuild("Build(with a builder that built another model before)", wg, err)
+		if in.Shared {
+			sb := graph.NewWeightedAuthorizationModelGraphBuilder()
+			ppm := in.Prior.Proto()
+			type out struct {
+				wg  *graph.WeightedAuthorizationModelGraph
+				err error
+			}
+			outs := make([]out, 4)
+			var wgrp sync.WaitGroup
+			for i := range outs {
+				wgrp.Add(1)
+				go func(i int) {
+					defer wgrp.Done()
+					for k := 0; k < 3; k++ {
+						if i%2 == 0 {
+							outs[i].wg, outs[i].err = sb.Build(pm)
+						} else {
+							_, _ = sb.Build(ppm)
+						}
+					}
+				}(i)
+			}
+			wgrp.Wait()
+			for i := 0; i < len(outs); i += 2 {
+				checkBuild(fmt.Sprintf("Build(one builder value shared by 4 goroutines, goroutine %d)", i), outs[i].wg, outs[i].err)
+			}
+		}
 	}
 	if wgHooks && len(in.Orders) > 0 && gSpec.Err == "" {
 		for oi, ord := range in.Orders {
